@@ -232,8 +232,20 @@ class Ctx:
         self.cov["tlc_runs"].append({"role": "R3", "module": module, "cfg": cfg, "generated": r.generated,
                                      "distinct": r.distinct, "ok": r.ok, "violated": r.violated,
                                      "lines": nlines, "wall_s": round(r.wall, 1), "label": label or ""})
-        if r.error:
+        r.accepted = r.ok and "Postcondition" not in r.output
+        m = None
+        for m in re.finditer(r'/\\ bad = "([^"]*)"', r.output):
+            pass
+        r.bad = m.group(1) if m else ""
+        m = None
+        for m in re.finditer(r"/\\ l = (\d+)", r.output):
+            pass
+        r.line = int(m.group(1)) - 1 if m else 0
+        if r.error and "Postcondition" not in (r.error or ""):
             raise MachineryError("TLC validate %s/%s: %s\n%s" % (module, cfg, r.error, r.output[-3000:]))
+        if not r.violated and not r.accepted:
+            raise MachineryError("trace %s not consumed to the end by %s (matched prefix shorter than the trace)\n%s"
+                                 % (tracefile, module, r.output[-2000:]))
         return r
 
     # ------------------------------------------------------------------ Go harness
